@@ -12,13 +12,10 @@ Definition pinned_checker : list string := [
   "if kwargs_error:";
   "    raise kwargs_error";
   "in_progress = _IN_PROGRESS.get()";
-  "if in_progress is None:";
-  "    in_progress = set()";
-  "    _IN_PROGRESS.set(in_progress)";
   "if id_func in in_progress:";
   "    return func(*args, **kwargs)";
   "try:";
-  "    in_progress.add(id_func)";
+  "    _IN_PROGRESS.set(in_progress | {id_func})";
   "    preconditions, snapshots, postconditions = _unpack_pre_snap_posts(wrapper=wrapper)";
   "    resolved_kwargs = kwargs_from_call(args=args, kwargs=kwargs, kwdefaults=kwdefaults, param_names=param_names)";
   "    type_error = _assert_resolved_kwargs_valid(postconditions=postconditions, resolved_kwargs=resolved_kwargs)";
@@ -29,9 +26,9 @@ Definition pinned_checker : list string := [
   "        raise violation_error";
   "    if postconditions and snapshots:";
   "        resolved_kwargs['OLD'] = _capture_old(resolved_kwargs=resolved_kwargs, snapshots=snapshots)";
-  "    in_progress.discard(id_func)";
+  "    _IN_PROGRESS.set(in_progress)";
   "    result = func(*args, **kwargs)";
-  "    in_progress.add(id_func)";
+  "    _IN_PROGRESS.set(in_progress | {id_func})";
   "    if postconditions:";
   "        resolved_kwargs['result'] = result";
   "        violation_error = _assert_postconditions(postconditions=postconditions, resolved_kwargs=resolved_kwargs)";
@@ -39,7 +36,7 @@ Definition pinned_checker : list string := [
   "            raise violation_error";
   "    return result";
   "finally:";
-  "    in_progress.discard(id_func)"
+  "    _IN_PROGRESS.set(in_progress)"
 ].
 
 Definition pinned_assert_preconditions : list string := [
